@@ -206,9 +206,10 @@ pub fn run(ctx: Ctx) -> i32 {
     let fams = ["rules", "tokens", "prods", "symbols", "states", "lexrules"];
     let widths = ["u8", "u16", "u32"];
     if let Some(case) = load_replay(&ctx) {
-        let r = vcore::pool::confirm_alone("c20", &[], &case.to_string(), Duration::from_secs(120), 8192);
-        ctx.note(&format!("replay: {:?}", r));
-        return ctx.finish(json!({"states":1,"transitions":1,"traces_validated_against_impl":1,"samples":[case]}), &[], false);
+        // the quick exploration takes about a second: replay = run it again and keep the
+        // violations of the stored case
+        let keys: Vec<&str> = case.as_object().map(|m| m.keys().map(|k| k.as_str()).collect()).unwrap_or_default();
+        ctx.replay_only(&keys, &case);
     }
     // ---- (1) the universe in all widths, in-process
     let gs = if ctx.quick() { Universe::new(2, 2, 2, 2, 5).enumerate() } else { Universe::new(2, 2, 2, 2, 6).enumerate() };
